@@ -5,7 +5,7 @@ import warnings
 
 import numpy as np
 
-from . import use_repo, rng as rngmod
+from . import use_repo, rng as rngmod, plots
 from .pipeline import make_config, quiet_progress
 
 warnings.simplefilter("ignore")
@@ -48,6 +48,8 @@ class Stage:
     def digest_outputs(self, arrs, n):
         return [hashlib.sha1(_rowbytes(arrs, j)).digest()[:8] for j in range(n)]
 
+    plots = False     # True: the stage is decorated with plot functions; call(idx, plot=True) requests all of them
+
     def call(self, idx):
         """-> (list of per-position digests, inputs_intact)"""
         raise NotImplementedError
@@ -83,11 +85,12 @@ class GeomThrow(Stage):
 
 class GeomCall(GeomThrow):
     name = "RegionGeom.__call__"
+    plots = True
 
-    def call(self, idx):
+    def call(self, idx, plot=False):
         u = np.ascontiguousarray(self.u[:, idx])
         keep = u.copy()
-        b, t, p = self.obj(u)
+        b, t, p = plots.call(self.obj, u, plot=plot)
         m = np.asarray(self.obj.event_mask)
         return self.digest_outputs([m, _expand(m, b), _expand(m, t), _expand(m, p)], len(idx)), _intact([keep], [u])
 
@@ -117,11 +120,12 @@ class TooThrow(Stage):
 
 class TooCall(TooThrow):
     name = "RegionGeomToO.__call__"
+    plots = True
 
-    def call(self, idx):
+    def call(self, idx, plot=False):
         t = np.ascontiguousarray(self.t[idx])
         keep = t.copy()
-        b, th, p, tm = self.obj(t)
+        b, th, p, tm = plots.call(self.obj, t, plot=plot)
         h = np.asarray(self.obj.horizon_mask)
         v = np.zeros_like(h)
         v[h] = np.asarray(self.obj.volume_mask)
@@ -131,15 +135,16 @@ class TooCall(TooThrow):
 
 class SpectraStage(Stage):
     name = "Spectra.__call__"
+    plots = True
 
     def setup(self):
         from nuspacesim.simulation.spectra.spectra import Spectra
         self.obj = Spectra(make_config({"spectrum": "power", "index": 2.2, "lo": 6.5, "hi": 11.0}))
         self.u = self.rng.random(self.n)
 
-    def call(self, idx):
+    def call(self, idx, plot=False):
         with rngmod.constant(0.37):
-            e, a, b = self.obj(len(idx))
+            e, a, b = plots.call(self.obj, len(idx), plot=plot)
         n = len(idx)
         return self.digest_outputs([e, np.full(n, a), np.full(n, b)], n), True
 
@@ -185,13 +190,14 @@ class TauExit(Stage):
 
 class TausCall(Stage):
     name = "Taus.__call__"
+    plots = True
     setup = _tau_pool
 
-    def call(self, idx):
+    def call(self, idx, plot=False):
         b, le = self.beta[idx].copy(), self.le[idx].copy()
         keep = [b.copy(), le.copy()]
         with rngmod.constant(0.37):
-            outs = self.obj(b, le)
+            outs = plots.call(self.obj, b, le, plot=plot)
         return self.digest_outputs(list(outs), len(idx)), _intact(keep, [b, le])
 
 
@@ -285,6 +291,7 @@ class AltDec(Stage):
 
 class EasCall(Stage):
     name = "EAS.__call__"
+    plots = True
     cost = 40
 
     def setup(self):
@@ -294,18 +301,19 @@ class EasCall(Stage):
         _shower_pool(self)
         self.alt[4:] = np.where(self.rng.random(self.n - 4) < 0.6, self.alt[4:], 30.0)
 
-    def call(self, idx):
+    def call(self, idx, plot=False):
         import dask
         a = [self.beta[idx].copy(), self.alt[idx].copy(), self.E[idx].copy(), self.lat[idx].copy(), self.lon[idx].copy()]
         keep = [x.copy() for x in a]
         with dask.config.set(scheduler="synchronous"):
-            pe, c = self.obj(*a, cloudf=lambda lat, long: np.float32(1.0))
+            pe, c = plots.call(self.obj, *a, plot=plot, cloudf=lambda lat, long: np.float32(1.0))
         return self.digest_outputs([pe, c], len(idx)), _intact(keep, a)
 
 
 class EasCallThreads(EasCall):
     """the same stage under dask's threaded scheduler: one shared kernel object evaluated re-entrantly"""
     name = "EAS.__call__[threads-4]"
+    plots = False
 
     def call(self, idx):
         import dask
